@@ -38,6 +38,7 @@ func isSubresourceCreate(in ssa.Instruction, sub string) bool {
 }
 
 func runC11(c *Ctx) {
+	borrow(c, "O7", "C17", "O2", "paired with ReleaseMutex", "a failed reservation step must not leave the group mutex held: the rollback of the same attempt would block forever and the request would never be reported failed")
 	borrow(c, "O6", "C17", "O5", "label patch is applied through", "rollback removes the labels it sees on the reconciler's pod object")
 
 	p, fx := c.P, c.Fx
